@@ -453,7 +453,7 @@ func runC13(ctx *Ctx) {
 	rans := []int64{1, 0, 1<<32 - 1, 65535, 1 << 24}
 	psis := []int64{1, 0, 15, 255, 16}
 	ips := []string{"192.168.61.3", "0.0.0.0", "255.255.255.255", "1.2.3.4", "::ffff:10.45.0.7"} // (the last: an IPv4 address written in IPv4-mapped form is still that IPv4 address)
-	nasLens := []int{20, 0, 1, 126, 127, 128, 255, 256, 2000, 5000}
+	nasLens := []int{20, 0, 1, 126, 127, 128, 255, 256, 2000, 5000, 16379, 16380, 16381, 16382, 16383, 16384, 16385, 32764, 32765, 32766} // (the last ones put the IE value and the message value on both sides of a 16K fragment boundary)
 	if ctx.Thorough {
 		nasLens = nil
 		for n := 0; n <= 5000; n++ {
